@@ -121,6 +121,9 @@ def valArgs (x : List Int) : List (Option Cat × Int) := x.map fun v => (none, v
 
 def fmtRL (p : Int × Log) : String := s!"r={p.1} log={fmtLog p.2}"
 
+/-- a plain function taking ints by value cannot observe the category of its arguments -/
+def strip (p : Int × Log) : Int × Log := (p.1, p.2.map fun c => { c with args := c.args.map fun a => (none, a.2) })
+
 /-- split a flat value list into tuples of the given arities -/
 def splitBy : List Nat → List Int → List (List Int)
   | [], _ => []
@@ -139,8 +142,29 @@ structure DState where
 
 def nObj : Nat := 4
 
+/-- the harness can only count closures with a user-provided copy constructor / destructor (odd `ty`) -/
+def counted : Option Fn → Bool
+  | some f => f.ty % 2 == 1
+  | none => false
+
 def liveOf (st : St) : Nat :=
-  ((List.range nObj).filter fun k => (st.mem (.obj k)).isSome).length + (if (st.mem .tmp).isSome then 1 else 0)
+  ((List.range nObj).filter fun k => counted (st.mem (.obj k))).length + (if counted (st.mem .tmp) then 1 else 0)
+
+/-- type-level facts the harness reports at run time (`typeq q=<name>`): whether the fact holds for the
+    headers as they are (after the fix-c20 commits), and whether the standard prescribes it.  This is a table,
+    not a model: value categories and element types are outside the value-level model (DESIGN §6). -/
+def typeFact : String → Option (Bool × Bool)
+  | "make_pair_unwraps_refwrap" => some (false, true)
+  | "make_tuple_unwraps_refwrap" => some (true, true)
+  | "tuple_cat_value_types" => some (true, true)
+  | "tuple_cat_keeps_ref" => some (false, true)
+  | "tuple_cat_keeps_nested" => some (false, true)
+  | "tuple_copy_assignable" => some (false, true)
+  | "tuple_move_assignable" => some (false, true)
+  | "tuple_get_by_type" => some (false, true)
+  | "tuple_structured_binding" => some (false, true)
+  | "pair_ref_copy_assignable" => some (true, true)
+  | _ => none
 
 def fmtM (st : St) : String :=
   let e := (List.range nObj).map fun k => if (st.vt (.obj k)).isSome then (1 : Int) else 0
@@ -148,7 +172,7 @@ def fmtM (st : St) : String :=
 
 def fmtS (s : Spec.ASt) : String :=
   let e := (List.range nObj).map fun k => if (s k).isSome then (1 : Int) else 0
-  s!"e={fmtList e} live={((List.range nObj).filter fun k => (s k).isSome).length}"
+  s!"e={fmtList e} live={((List.range nObj).filter fun k => counted (s k)).length}"
 
 def fmtOut : Out → String
   | .unit => "ok"
@@ -253,9 +277,9 @@ def step (st : DState) (l : Line) : DState × String :=
         let cp := if qa == .l || qa == .c then 1 else 0
         let tid := if l.op == "ifn2" then 8 else 4
         out (fmtE fmtRL (functionRefCall (.fob tid c) args) ++ s!" cp={cp}") (fmtRL (Spec.functionRefCall (.fob tid c) args) ++ s!" cp={cp}")
-      | "fn", some _, _, _ => out (fmtE fmtRL (functionRefCall (.fn 1) (valArgs x)) ++ " cp=0") (fmtRL (Spec.functionRefCall (.fn 1) (valArgs x)) ++ " cp=0")
-      | "fptr", some _, _, _ => out (fmtE fmtRL (functionRefCall (.fn 2) (valArgs x)) ++ " cp=0") (fmtRL (Spec.functionRefCall (.fn 2) (valArgs x)) ++ " cp=0")
-      | "lam", some _, _, _ => out (fmtE fmtRL (functionRefCall (.fn 3) (valArgs x)) ++ " cp=0") (fmtRL (Spec.functionRefCall (.fn 3) (valArgs x)) ++ " cp=0")
+      | "fn", some _, _, _ => out (fmtE (fun p => fmtRL (strip p)) (functionRefCall (.fn 1) (valArgs x)) ++ " cp=0") (fmtRL (strip (Spec.functionRefCall (.fn 1) (valArgs x))) ++ " cp=0")
+      | "fptr", some _, _, _ => out (fmtE (fun p => fmtRL (strip p)) (functionRefCall (.fn 2) (valArgs x)) ++ " cp=0") (fmtRL (strip (Spec.functionRefCall (.fn 2) (valArgs x))) ++ " cp=0")
+      | "lam", some _, _, _ => out (fmtE (fun p => fmtRL (strip p)) (functionRefCall (.fn 3) (valArgs x)) ++ " cp=0") (fmtRL (strip (Spec.functionRefCall (.fn 3) (valArgs x))) ++ " cp=0")
       | _, _, _, _ => bad
     | _, _ => bad
   | "rw" =>
@@ -280,7 +304,6 @@ def step (st : DState) (l : Line) : DState × String :=
         | none => bad
       | "fn" =>
         -- a function pointer taking ints by value: the categories of the bound arguments are not observable
-        let strip (p : Int × Log) : Int × Log := (p.1, p.2.map fun c => { c with args := c.args.map fun a => (none, a.2) })
         out (fmtE (fun p => fmtRL (strip p)) (bindFrontCall (fun _ => .fn 2) q b (valArgs x)) ++ s!" bcp={bcp}")
             (fmtRL (strip (Spec.bindFrontCall (fun _ => .fn 2) q b (valArgs x))) ++ s!" bcp={bcp}")
       | _ => bad
@@ -294,6 +317,10 @@ def step (st : DState) (l : Line) : DState × String :=
         out (fmtE f (notFnCall 4 q (p == 1) args)) (f (Spec.notFnCall 4 q (p == 1) args))
       | none => bad
     | _, _, _, _ => bad
+  | "typeq" =>
+    match (l.str? "q").bind typeFact with
+    | some (m, s) => out (fmtBool m) (fmtBool s)
+    | none => bad
   | "new" => ({ m := .ok St.init, s := Spec.ASt.init }, s!"ok {fmtM St.init} log=-\tok {fmtS Spec.ASt.init} log=-")
   | "ifn" =>
     match parseIfn l with
